@@ -203,7 +203,7 @@ func (h ProtectedHeader) PayloadHashAlgorithm() (Algorithm, error) {
 //
 // Reference: https://datatracker.ietf.org/doc/html/rfc8152#section-3.1
 func (h ProtectedHeader) Critical() ([]any, error) {
-	value, ok := h[HeaderLabelCritical]
+	value, ok := lookupLabel(h, HeaderLabelCritical)
 	if !ok {
 		return nil, nil
 	}
